@@ -61,7 +61,7 @@ func (t *TypeR) Build() reflect.Type {
 			}
 			tag += `v:"` + strconv.FormatUint(n, 10) + `"`
 		}
-		fields = append(fields, reflect.StructField{Name: f.Name, Type: f.goType(), Tag: reflect.StructTag(tag)})
+		fields = append(fields, reflect.StructField{Name: f.Name, Type: f.goType(), Tag: reflect.StructTag(tag), Anonymous: f.Kind == "emb" || f.Kind == "pemb"})
 	}
 	return reflect.StructOf(fields)
 }
@@ -128,6 +128,10 @@ func (f *FieldR) goType() reflect.Type {
 		return reflect.MapOf(reflect.TypeOf(""), f.Sub.cached())
 	case "mapsm":
 		return reflect.TypeOf(map[string]map[string]int64(nil))
+	case "emb": // embedded named struct (field name Base)
+		return reflect.TypeOf(Base{})
+	case "pemb": // embedded pointer to a named struct
+		return reflect.TypeOf(&Base{})
 	case "arr3":
 		return reflect.ArrayOf(3, reflect.TypeOf(int64(0)))
 	}
@@ -285,6 +289,12 @@ func (f *FieldR) fill(rv reflect.Value) {
 			}
 			rv.Set(m)
 		}
+	case "emb":
+		rv.Set(reflect.ValueOf(Base{ID: v.I, Note: v.S}))
+	case "pemb":
+		if !v.Nil {
+			rv.Set(reflect.ValueOf(&Base{ID: v.I, Note: v.S}))
+		}
 	case "mapsm":
 		if !v.Nil {
 			m := map[string]map[string]int64{}
@@ -395,6 +405,14 @@ func DrawType(t *rapid.T, depth int) *TypeR {
 		f.Tag = form
 		f.Val = drawValue(t, &f, depth)
 		tr.Fields = append(tr.Fields, f)
+	}
+	// sometimes embed the named struct Base (fields ID, Note), by value or by pointer; its
+	// promoted names must not collide with the other fields
+	if !used["base"] && !used["id"] && !used["note"] && !usedTag["id"] && !usedTag["note"] && !usedTag["base"] && rapid.IntRange(0, 5).Draw(t, "embed") == 0 {
+		f := FieldR{Name: "Base", Kind: rapid.SampledFrom([]string{"emb", "pemb", "pemb"}).Draw(t, "embkind")}
+		f.Val = &ValueR{I: rapid.SampledFrom(valueInts).Draw(t, "embid"), S: rapid.SampledFrom(valueStrs).Draw(t, "embnote"), Nil: f.Kind == "pemb" && rapid.IntRange(0, 3).Draw(t, "embnil") == 0}
+		at := rapid.IntRange(0, len(tr.Fields)).Draw(t, "embat")
+		tr.Fields = append(tr.Fields[:at], append([]FieldR{f}, tr.Fields[at:]...)...)
 	}
 	return tr
 }
